@@ -118,6 +118,7 @@ def factsOf (m : ClassModel) : Kind → Facts
   | .jsonList _ => ⟨false, true, false, true, false, false, true, false, false⟩
   | .ref t _ => ⟨false, false, false, false, true, false, false, mapped m t, false⟩
   | .coll t => ⟨false, false, false, true, false, true, false, mapped m t, false⟩
+  | .custom _ => ⟨false, false, false, false, true, false, false, false, true⟩
 
 /-- The field shapes of the grammar up to names. `custom` / `customList` exist only with a `type_mappings` argument,
 `typeType` is `Type[X]`. -/
@@ -173,6 +174,7 @@ def shapeOf (m : ClassModel) : Kind → Shape
   | .jsonList _ => .jsonList
   | .ref t o => .ref (mapped m t) o
   | .coll t => .coll (mapped m t)
+  | .custom o => .custom o
 
 /-- The table decides every field shape of the grammar the way the property demands. Decidable, finite. -/
 def DispatchOk (t : DispatchTable) : Prop := ∀ s ∈ Shape.all, interpDispatch t s.facts = s.action
@@ -182,7 +184,7 @@ instance (t : DispatchTable) : Decidable (DispatchOk t) := by unfold DispatchOk;
 /-! ## what an action emits (the `create_*` methods) -/
 
 def Kind.opt : Kind → Bool
-  | .scalar _ o => o | .enum o => o | .datetime o => o | .ref _ o => o | _ => false
+  | .scalar _ o => o | .enum o => o | .datetime o => o | .ref _ o => o | .custom o => o | _ => false
 
 def Kind.target : Kind → Option Name
   | .ref t _ => some t | .coll t => some t | _ => none
